@@ -107,6 +107,18 @@ func check(c Case) *vk.Violation {
 				sb = make([]byte, 4)
 				binary.BigEndian.PutUint32(sb, status)
 			}
+			// the status octets as they sit in a received frame: a sub-slice of a larger buffer. The digest
+			// function must not write to (or behind) its arguments.
+			frame := make([]byte, 0, 64)
+			frame = append(frame, 0xC1, 0xC2)
+			frame = append(frame, sb...)
+			frame = append(frame, bytes.Repeat([]byte{0xEE}, 40)...)
+			canary := append([]byte{}, frame...)
+			_ = cmpp.GenConnectRespAuthISMG(frame[2:2+len(sb)], string(reqAuth), string(secret))
+			if !bytes.Equal(frame, canary) {
+				viol = vk.Violf("GenConnectRespAuthISMG/writes-to-callers-buffer", c, "GenConnectRespAuthISMG overwrote the caller's buffer behind the status octets: %x became %x", canary[:24], frame[:24])
+				return
+			}
 			if got := cmpp.GenConnectRespAuthISMG(sb, string(reqAuth), string(secret)); !bytes.Equal(got, respAuth) {
 				viol = vk.Violf("GenConnectRespAuthISMG", c, "GenConnectRespAuthISMG = %x, MD5(status|request authenticator|secret) = %x", got, respAuth)
 				return
@@ -346,10 +358,41 @@ func TestExchanges(t *testing.T) {
 func TestConstructors(t *testing.T) {
 	rapid.Check(t, func(t *rapid.T) {
 		c := CtorCase{Which: rapid.SampledFrom([]string{"cmpp20.NewConnect", "smgp30.NewLogin"}).Draw(t, "which"),
-			Account: rapid.StringMatching(`[0-9a-zA-Z]{0,6}`).Draw(t, "account"), Secret: rapid.StringMatching(`[ -~]{0,32}`).Draw(t, "secret")}
+			Account: rapid.StringMatching(`[0-9a-zA-Z:|/ ]{0,6}`).Draw(t, "account"), Secret: rapid.StringMatching(`[ -~]{0,32}`).Draw(t, "secret")}
 		rec.Eval()
 		rec.Class("constructor:" + c.Which)
-		rec.Report(t, "ctor", checkCtor(c))
+		rec.ReportSeq(t, "ctor", c, func() *vk.Violation { return checkCtor(c) })
+		// a second credential pair that shares its concatenation with the first - (a+sep+b, c) vs (a, b+sep+c) -
+		// right afterwards: whatever is remembered between logins must be keyed by the pair, not by a join of it
+		if len(c.Account) >= 1 {
+			for _, sep := range []string{":", "", "|", "/", " "} {
+				max := 6
+				if c.Which == "smgp30.NewLogin" {
+					max = 8
+				}
+				first := CtorCase{Which: c.Which, Account: c.Account + sep + "k", Secret: c.Secret}
+				second := CtorCase{Which: c.Which, Account: c.Account, Secret: "k" + sep + c.Secret}
+				if sep != "" {
+					second.Secret = "k" + sep + c.Secret
+					first = CtorCase{Which: c.Which, Account: c.Account + sep + "k", Secret: c.Secret}
+					second = CtorCase{Which: c.Which, Account: c.Account, Secret: "k" + sep + c.Secret}
+					// joined text equal only in the form account+sep+secret: "a:k"+":"+"s" vs "a"+":"+"k:s"
+				}
+				if len(first.Account) > max {
+					continue
+				}
+				rec.Eval()
+				rec.Class("colliding_credential_pairs")
+				if v := checkCtor(first); v != nil {
+					rec.Report(t, "ctor", v)
+				}
+				if v := checkCtor(second); v != nil {
+					v.Key = "after-colliding-pair/" + v.Key
+					v.Case = vk.SeqCase{Kind: "ctor", First: first, Then: second}
+					rec.Report(t, "sequence", v)
+				}
+			}
+		}
 	})
 }
 
